@@ -172,4 +172,19 @@ ENTRIES.update({
           "theorem quantifies over all draws. Trusted base as for C07.",
  },
 })
+ENTRIES.update({
+ "C13": {
+  "text": "[A] proofs (Props/C13) for every collision predicate, sample stream, valid nearest-neighbour function and flag history, no bound on "
+          "tries or tree sizes: the tree invariant (root, parent indices decrease, every non-root vertex accepted by is_free) is preserved by "
+          "extend/connect; a returned path is start :: mid ++ [goal] with every element of mid accepted by is_free, in both parities of the "
+          "tree swap; a flag raised at iteration i makes the result Cancelled, and a returned path was found before any iteration that "
+          "saw the flag; [R] every tree edge is at most one step long and consecutive path nodes at most three steps apart (the two "
+          "meeting vertices are omitted from the path); if start, goal and samples lie in a box so does every node. Runs replay "
+          "dual_rrt_connect (hook) in the model with the same samples/obstacles/flag and require identical paths, and check endpoints, "
+          "freeness, gaps, limits and cancellation on plan_rrt with the same robot's collides().",
+  "note": "kdtree's nearest neighbour is modelled by a linear scan (ties are the only difference; the theorems hold for any valid choice); "
+          "connect's termination is modelled with fuel 1e6; thread timing of the cancellation flag is not modelled (the theorem "
+          "quantifies over all flag histories; the run raises it before and during planning). Trusted base as for C10/C11.",
+ },
+})
 NOT_APPLICABLE = {}
